@@ -395,11 +395,11 @@ theorem tie_recoverSites : GojaModel.Generated.C14.recoverSites = Expected.recov
 panic value of that dynamic type and what the model's `exceptionFromValue .thrower` must return for it. -/
 def interpCase : String × List String → Option (Pv × Option Exc)
   | ("*Object", ["ex = &Exception{ val: x1, }", "if er, ok := x1.self.(*errorObject); ok { ex.stack = er.stack }"]) =>
-    some (.val (.errObj 1 .error), some ⟨.errObj 1 .error, .other⟩)           -- errorObject: its own stack
+    some (.val (.errObj 1 .error), some ⟨.errObj 1 .error, .creation⟩)           -- errorObject: its own stack
   | ("Value", ["ex = &Exception{ val: x1, }"]) =>
     some (.val (.prim 1), some ⟨.prim 1, .thrower⟩)                            -- stack captured now
   | ("*Exception", ["ex = x1"]) =>
-    some (.exc ⟨.obj 1, .rethrow true⟩, some ⟨.obj 1, .rethrow true⟩)          -- the same exception
+    some (.exc ⟨.obj 1, .rethrow 3⟩, some ⟨.obj 1, .rethrow 3⟩)          -- the same exception
   | ("typeError", ["ex = &Exception{ val: vm.r.NewTypeError(string(x1)), }"]) =>
     some (.sentinel .typeE, some ⟨.freshErr .typeError .thrower, .thrower⟩)
   | ("referenceError", ["ex = &Exception{ val: vm.r.newError(vm.r.getReferenceError(), string(x1)), }"]) =>
